@@ -1,4 +1,6 @@
 import Model.Common.Proto
+import Model.Common.Sha256
+import Model.Common.Ripemd160
 import Model.C15.Wire
 import Model.C15.Text
 import Model.C15.Eval
@@ -41,8 +43,11 @@ def handle : List String → String
     match readTable sigs, (if wit == "-" then some [] else (wit.splitOn ",").mapM fromHex?) with
     | some sg, some w => withMs ctx toks fun c n =>
       let sigOK : Key → Bytes → Bool := fun k σ => !σ.isEmpty && sg.any fun p => p.1 == k && p.2 == σ
-      let E : EvalEnv := ⟨sigOK, fun _ b => b, fun _ => false, fun _ => false⟩
-      match exec E (opsOf c (fun _ => []) false n) ⟨w.reverse, [], []⟩ with
+      let hashF : HashKind → Bytes → Bytes := fun h b => match h with
+        | .sha256 => Btc.sha256 b | .hash256 => Btc.hash256 b | .ripemd160 => Btc.ripemd160 b
+        | .hash160 => Btc.hash160 b
+      let E : EvalEnv := ⟨sigOK, hashF, fun _ => false, fun _ => false⟩
+      match exec E (opsOf c Btc.hash160 false n) ⟨w.reverse, [], []⟩ with
       | some st => if st.alt.isEmpty && st.conds.isEmpty
           then "ok " ++ (if st.stack.isEmpty then "-" else ",".intercalate (st.stack.map toHex))
           else "err unbalanced"
